@@ -86,7 +86,7 @@ def run(ctx):
                 nmark += pair.compare_markers(ctx, "R-PAIR.marker", "%s::%s<->%s" % (pre[-50:], w.id.rsplit("::", 1)[-1],
                                                                                        r.id.rsplit("::", 1)[-1]), w, r)
     ctx.instance("R-PAIR.marker.arms", nmark)
-    ctx.floor("R-PAIR.marker.arms", 20)
+    ctx.floor("R-PAIR.marker.arms", 12)
     # 2c. a buffering writer drains its own buffer before it repositions the sink
     order.use_facts(fx)
     sk = [i for i in fx.fn_ids("src/io/stream_buffer.rs") if i.endswith("StreamBufferedWriter<W> as std::io::Seek>::seek")]
